@@ -4,8 +4,9 @@
   through to the synchronous handlers of `Fbr.Srv`.
 
   On /dev/fuse the async writer uses `pwrite(fd, .., 0)` for single-buffer writes and `writev`
-  for multi-buffer ones; `Out.sys` lists the system calls in order and `Out.pw` says, per call,
-  whether it was a positional write at offset 0 (`true`) or a `writev` (`false`).
+  for multi-buffer ones; `AOut.sys` lists the system calls in order and `AOut.pw` says, per call,
+  whether it was a positional write (`true`) or a `writev` (`false`).  The bytes are what the
+  client observes; `forget` drops the `pw` annotation to compare with the synchronous result.
 -/
 import Fbr.Srv
 
@@ -15,33 +16,35 @@ open Fbr.Wire Fbr.Conv Fbr.Srv
 structure AOut where
   sys : List Bytes := []
   pw : List Bool := []
-  placed : List (Nat × Bytes) := []
+  area : Bytes := []
   deriving Repr, DecidableEq, Inhabited
 
 /-- what the harness pre-fills scratch / reply buffers with -/
 def fillByte (i : Nat) : UInt8 := UInt8.ofNat ((i * 31 + 7) % 256)
+
+/-- whether `FuseDevWriter::async_commit` lacks the `!buffered` early return (it did in the
+    pinned tree — every unbuffered async error reply was followed by a second write of 16 stale
+    buffer bytes; fixed, see known_findings.json) -/
+def COMMIT_UNBUFFERED : Bool := false
+
+def aEmit (cfg : Cfg) (msg : Bytes) (positional : Bool) : AOut :=
+  if cfg.fusedev then { sys := [msg], pw := [positional] } else { area := msg }
 
 /-- `async_reply_ok` on an unsplit writer -/
 def aReplyOk (cfg : Cfg) (unique : Nat) (body data : Bytes) : AOut × Ret :=
   let len := OUT_HDR + body.length + data.length
   let msg := outHeader len 0 unique ++ body ++ data
   if len > cfg.cap then ({}, .err .encodeMessage)
-  else if cfg.fusedev then
-    ({ sys := [msg], pw := [body.isEmpty && data.isEmpty] }, .ok len)
-  else ({ placed := [(0, msg)] }, .ok len)
+  else (aEmit cfg msg (body.isEmpty && data.isEmpty), .ok len)
 
-/-- `async_do_reply_error` on an unsplit, unbuffered writer.  `commitUnbuffered` says whether
-    `async_commit` writes the (never filled) internal buffer again when the writer is not
-    buffered — it does in the pinned tree (the sync `commit` returns early instead). -/
-def aReplyErr (cfg : Cfg) (unique : Nat) (e : IoErr) (commitUnbuffered : Bool) : AOut × Ret :=
+/-- `async_do_reply_error` on an unsplit, unbuffered writer -/
+def aReplyErr (cfg : Cfg) (unique : Nat) (e : IoErr) : AOut × Ret :=
   if OUT_HDR > cfg.cap then ({}, .err .encodeMessage)
   else
     let h := outHeader OUT_HDR (errField e) unique
-    if cfg.fusedev then
-      if commitUnbuffered then
-        ({ sys := [h, (List.range OUT_HDR).map fillByte], pw := [true, true] }, .ok OUT_HDR)
-      else ({ sys := [h], pw := [true] }, .ok OUT_HDR)
-    else ({ placed := [(0, h)] }, .ok OUT_HDR)
+    if cfg.fusedev && COMMIT_UNBUFFERED then
+      ({ sys := [h, (List.range OUT_HDR).map fillByte], pw := [true, true] }, .ok OUT_HDR)
+    else (aEmit cfg h true, .ok OUT_HDR)
 
 structure ARes where
   calls : List Call := []
@@ -53,122 +56,134 @@ structure ARes where
 
 def ofSync (r : Res) : ARes :=
   { calls := r.calls, ret := r.ret, minor := r.minor, allocs := r.allocs,
-    out := { sys := r.out.sys, pw := r.out.sys.map (fun _ => false), placed := r.out.placed } }
+    out := { sys := r.out.sys, pw := r.out.sys.map (fun _ => false), area := r.out.area } }
 
-/-- whether `FuseDevWriter::async_commit` lacks the `!buffered` early return (pinned tree: yes) -/
-def COMMIT_UNBUFFERED : Bool := true
+/-- what the client can observe of an async result -/
+def forget (r : ARes) : Res :=
+  { calls := r.calls, ret := r.ret, minor := r.minor, allocs := r.allocs,
+    out := { sys := r.out.sys, area := r.out.area } }
+
+def aErrRes (cfg : Cfg) (unique : Nat) (calls : List Call) (allocs : List Nat) (e : IoErr) : ARes :=
+  { calls := calls, out := (aReplyErr cfg unique e).1, ret := (aReplyErr cfg unique e).2,
+    minor := cfg.minor, allocs := allocs }
+
+def aOkRes (cfg : Cfg) (unique : Nat) (calls : List Call) (allocs : List Nat) (body data : Bytes) : ARes :=
+  { calls := calls, out := (aReplyOk cfg unique body data).1, ret := (aReplyOk cfg unique body data).2,
+    minor := cfg.minor, allocs := allocs }
 
 def aFinish (cfg : Cfg) (unique : Nat) (calls : List Call) (allocs : List Nat) (a : Ans)
     (okBody : Ans → Option (Bytes × Bytes)) : ARes :=
   match a with
-  | .err e =>
-    let (o, r) := aReplyErr cfg unique e COMMIT_UNBUFFERED
-    { calls := calls, out := o, ret := r, minor := cfg.minor, allocs := allocs }
+  | .err e => aErrRes cfg unique calls allocs e
   | a =>
     match okBody a with
-    | some (body, data) =>
-      let (o, r) := aReplyOk cfg unique body data
-      { calls := calls, out := o, ret := r, minor := cfg.minor, allocs := allocs }
-    | none =>
-      let (o, r) := aReplyErr cfg unique (.os ENOSYS) COMMIT_UNBUFFERED
-      { calls := calls, out := o, ret := r, minor := cfg.minor, allocs := allocs }
+    | some (body, data) => aOkRes cfg unique calls allocs body data
+    | none => aErrRes cfg unique calls allocs (.os ENOSYS)
 
 def aBail (cfg : Cfg) (calls : List Call) (allocs : List Nat) (e : SrvErr) : ARes :=
   { calls := calls, ret := .err e, minor := cfg.minor, allocs := allocs }
 
 def asyncOps : List Nat := [1, 3, 4, 14, 15, 16, 20, 30, 35, 43]
 
+def aSimple (cfg : Cfg) (fs : Call → Ans) (unique : Nat) (calls0 : List Call) (c : Call)
+    (allocs : List Nat) (okb : Ans → Option (Bytes × Bytes)) : ARes :=
+  aFinish cfg unique (calls0 ++ [c]) allocs (fs c) okb
+
+def aWithObj (cfg : Cfg) (calls0 : List Call) (r : Bytes) (n : Nat) (k : Bytes → ARes) : ARes :=
+  if r.length < n then aBail cfg calls0 [] .decodeMessage else k (r.take n)
+
+def aNamed (cfg : Cfg) (unique : Nat) (calls0 : List Call) (hdrLen : Nat) (r : Bytes) (sub : Nat)
+    (k : Bytes → List Nat → ARes) : ARes :=
+  match getBody hdrLen sub (r.drop sub) with
+  | .error e => aBail cfg calls0 [] e
+  | .ok (body, n) =>
+    match cstr body with
+    | none => { aErrRes cfg unique calls0 [n] (.os EINVAL) with ret := .err .invalidCString }
+    | some name => k name [n]
+
+def aLookupReply (cfg : Cfg) (unique : Nat) (calls : List Call) (al : List Nat) (a : Ans) : ARes :=
+  match a with
+  | .entry e =>
+    if cfg.minor < 4 && e.inode == 0 then aErrRes cfg unique calls al (.os ENOENT)
+    else aFinish cfg unique calls al (.entry e) entryBody
+  | a => aFinish cfg unique calls al a entryBody
+
+/-- replies through a writer split at the header: buffered, so one `pwrite` (header only) or one
+    `writev` (header + data) at commit -/
+def aSplitErr (cfg : Cfg) (unique : Nat) (calls : List Call) (e : IoErr) : ARes :=
+  { calls := calls, ret := .ok OUT_HDR, minor := cfg.minor,
+    out := aEmit cfg (outHeader OUT_HDR (errField e) unique) true }
+
+def aSplitOk (cfg : Cfg) (unique : Nat) (calls : List Call) (payload : Bytes) : ARes :=
+  { calls := calls, ret := .ok ((OUT_HDR + payload.length) % 2 ^ 32), minor := cfg.minor,
+    out := aEmit cfg (outHeader ((OUT_HDR + payload.length) % 2 ^ 32) 0 unique ++ payload) payload.isEmpty }
+
+def aReadReply (cfg : Cfg) (unique : Nat) (calls : List Call) (a : Ans) : ARes :=
+  match a with
+  | .data d =>
+    if d.length > cfg.cap - OUT_HDR then aSplitErr cfg unique calls (.kind "InvalidData")
+    else aSplitOk cfg unique calls d
+  | .err e => aSplitErr cfg unique calls e
+  | _ => aSplitErr cfg unique calls (.os ENOSYS)
+
+/-- the async trait cannot return a passthrough id -/
+def openBodyA : Ans → Option (Bytes × Bytes)
+  | .opened fh opts _ => some (openOutBytes fh opts none, [])
+  | _ => none
+
+def createBodyA : Ans → Option (Bytes × Bytes)
+  | .created e fh opts _ => some (entryOutBytes (entryOutOfEntry e), openOutBytes fh opts none)
+  | _ => none
+
 def handleBodyA (cfg : Cfg) (fs : Call → Ans) (ctx : Ctx) (calls0 : List Call)
     (hdrLen op unique nodeid : Nat) (r : Bytes) : ARes :=
-  let mk (m : String) (args : List Arg) : Call := { method := m, ctx := ctx, args := args }
-  let simple (c : Call) (allocs : List Nat) (okb : Ans → Option (Bytes × Bytes)) : ARes :=
-    aFinish cfg unique (calls0 ++ [c]) allocs (fs c) okb
-  let withObj (n : Nat) (k : Bytes → ARes) : ARes :=
-    if r.length < n then aBail cfg calls0 [] .decodeMessage else k (r.take n)
-  let named (sub : Nat) (k : Bytes → List Nat → ARes) : ARes :=
-    match getBody hdrLen sub (r.drop sub) with
-    | .error e => aBail cfg calls0 [] e
-    | .ok (body, n) =>
-      match cstr body with
-      | none =>
-        let (o, _) := aReplyErr cfg unique (.os EINVAL) COMMIT_UNBUFFERED
-        { calls := calls0, out := o, ret := .err .invalidCString, minor := cfg.minor, allocs := [n] }
-      | some name => k name [n]
   match op with
   | 1 =>
-    named 0 fun name al =>
-      let c := mk "lookup" [.n nodeid, .bytes name]
-      match fs c with
-      | .entry e =>
-        if cfg.minor < 4 && e.inode == 0 then
-          let (o, rt) := aReplyErr cfg unique (.os ENOENT) COMMIT_UNBUFFERED
-          { calls := calls0 ++ [c], out := o, ret := rt, minor := cfg.minor, allocs := al }
-        else aFinish cfg unique (calls0 ++ [c]) al (.entry e) entryBody
-      | a => aFinish cfg unique (calls0 ++ [c]) al a entryBody
+    aNamed cfg unique calls0 hdrLen r 0 fun name al =>
+      aLookupReply cfg unique (calls0 ++ [mkCall ctx "lookup" [.n nodeid, .bytes name]]) al
+        (fs (mkCall ctx "lookup" [.n nodeid, .bytes name]))
   | 3 =>
-    withObj 16 fun b =>
-      let fh := if u32At b 0 &&& GETATTR_FH != 0 then some (u64At b 8) else none
-      simple (mk "getattr" [.n nodeid, .optN fh]) [] attrBody
+    aWithObj cfg calls0 r 16 fun b =>
+      aSimple cfg fs unique calls0 (mkCall ctx "getattr" [.n nodeid,
+        .optN (if u32At b 0 &&& GETATTR_FH != 0 then some (u64At b 8) else none)]) [] attrBody
   | 4 =>
-    withObj 88 fun b =>
-      let s := setattrOf b
-      let fh := if s.valid &&& FATTR_FH != 0 then some s.fh else none
-      simple (mk "setattr" [.n nodeid, .stat (statOfSetattr s), .optN fh, .n (s.valid &&& SETATTR_VALID_MASK)]) [] attrBody
+    aWithObj cfg calls0 r 88 fun b =>
+      aSimple cfg fs unique calls0 (mkCall ctx "setattr" [.n nodeid, .stat (statOfSetattr (setattrOf b)),
+        .optN (if (setattrOf b).valid &&& FATTR_FH != 0 then some (setattrOf b).fh else none),
+        .n ((setattrOf b).valid &&& SETATTR_VALID_MASK)]) [] attrBody
   | 14 =>
-    withObj 8 fun b =>
-      simple (mk "open" [.n nodeid, .n (u32At b 0), .n (u32At b 4)]) [] fun
-        | .opened fh opts _ => some (openOutBytes fh opts none, [])
-        | _ => none
+    aWithObj cfg calls0 r 8 fun b =>
+      aSimple cfg fs unique calls0 (mkCall ctx "open" [.n nodeid, .n (u32At b 0), .n (u32At b 4)]) [] openBodyA
   | 15 =>
-    withObj 40 fun b =>
-      let owner := if u32At b 20 &&& READ_LOCKOWNER != 0 then some (u64At b 24) else none
+    aWithObj cfg calls0 r 40 fun b =>
       if cfg.cap < OUT_HDR then aBail cfg calls0 [] .invalidHeaderLength
       else
-        let c := mk "read" [.n nodeid, .n (u64At b 0), .n (u32At b 16), .n (u64At b 8), .optN owner, .n (u32At b 32)]
-        let dataCap := cfg.cap - OUT_HDR
-        let errReply (e : IoErr) : ARes :=
-          let h := outHeader OUT_HDR (errField e) unique
-          { calls := calls0 ++ [c], ret := .ok OUT_HDR, minor := cfg.minor,
-            out := if cfg.fusedev then { sys := [h], pw := [true] } else { placed := [(0, h)] } }
-        match fs c with
-        | .data d =>
-          if d.length > dataCap then errReply (.kind "InvalidData")
-          else
-            let len := (OUT_HDR + d.length) % 2 ^ 32
-            let h := outHeader len 0 unique
-            { calls := calls0 ++ [c], ret := .ok len, minor := cfg.minor,
-              out := if cfg.fusedev then { sys := [h ++ d], pw := [d.isEmpty] }
-                     else { placed := (if d.isEmpty then [] else [(OUT_HDR, d)]) ++ [(0, h)] } }
-        | .err e => errReply e
-        | _ => errReply (.os ENOSYS)
+        aReadReply cfg unique (calls0 ++ [mkCall ctx "read" [.n nodeid, .n (u64At b 0), .n (u32At b 16), .n (u64At b 8),
+            .optN (if u32At b 20 &&& READ_LOCKOWNER != 0 then some (u64At b 24) else none), .n (u32At b 32)]])
+          (fs (mkCall ctx "read" [.n nodeid, .n (u64At b 0), .n (u32At b 16), .n (u64At b 8),
+            .optN (if u32At b 20 &&& READ_LOCKOWNER != 0 then some (u64At b 24) else none), .n (u32At b 32)]))
   | 16 =>
-    withObj 40 fun b =>
-      let fuseFlags := u32At b 20
-      let size := u32At b 16
-      if size > MAX_BUFFER_SIZE then
-        let (o, rt) := aReplyErr cfg unique (.os ENOMEM) COMMIT_UNBUFFERED
-        { calls := calls0, out := o, ret := rt, minor := cfg.minor }
+    aWithObj cfg calls0 r 40 fun b =>
+      if u32At b 16 > MAX_BUFFER_SIZE then aErrRes cfg unique calls0 [] (.os ENOMEM)
       else
-        let owner := if fuseFlags &&& WRITE_LOCKOWNER != 0 then some (u64At b 24) else none
-        let payload := (r.drop 40).take size
-        simple (mk "write" [.n nodeid, .n (u64At b 0), .bytes payload, .n size, .n (u64At b 8), .optN owner,
-                            .b (fuseFlags &&& WRITE_CACHE != 0), .n (u32At b 32), .n fuseFlags]) [] fun
-          | .count n => some (le32 n ++ le32 0, [])
-          | _ => none
+        aSimple cfg fs unique calls0 (mkCall ctx "write" [.n nodeid, .n (u64At b 0), .bytes ((r.drop 40).take (u32At b 16)),
+          .n (u32At b 16), .n (u64At b 8),
+          .optN (if u32At b 20 &&& WRITE_LOCKOWNER != 0 then some (u64At b 24) else none),
+          .b (u32At b 20 &&& WRITE_CACHE != 0), .n (u32At b 32), .n (u32At b 20)]) [] fun
+            | .count n => some (le32 n ++ le32 0, [])
+            | _ => none
   | 20 =>
-    withObj 16 fun b =>
-      simple (mk "fsync" [.n nodeid, .b (u32At b 8 &&& 1 != 0), .n (u64At b 0)]) [] unitBody
+    aWithObj cfg calls0 r 16 fun b =>
+      aSimple cfg fs unique calls0 (mkCall ctx "fsync" [.n nodeid, .b (u32At b 8 &&& 1 != 0), .n (u64At b 0)]) [] unitBody
   | 30 =>
-    withObj 16 fun b =>
-      simple (mk "fsyncdir" [.n nodeid, .b (u32At b 8 &&& 1 != 0), .n (u64At b 0)]) [] unitBody
+    aWithObj cfg calls0 r 16 fun b =>
+      aSimple cfg fs unique calls0 (mkCall ctx "fsyncdir" [.n nodeid, .b (u32At b 8 &&& 1 != 0), .n (u64At b 0)]) [] unitBody
   | 35 =>
-    withObj 16 fun b => named 16 fun name al =>
-      simple (mk "create" [.n nodeid, .bytes name, .create (u32At b 0) (u32At b 4) (u32At b 8) (u32At b 12)]) al fun
-        | .created e fh opts _ => some (entryOutBytes (entryOutOfEntry e), openOutBytes fh opts none)
-        | _ => none
+    aWithObj cfg calls0 r 16 fun b => aNamed cfg unique calls0 hdrLen r 16 fun name al =>
+      aSimple cfg fs unique calls0 (mkCall ctx "create" [.n nodeid, .bytes name, .create (u32At b 0) (u32At b 4) (u32At b 8) (u32At b 12)]) al createBodyA
   | 43 =>
-    withObj 32 fun b =>
-      simple (mk "fallocate" [.n nodeid, .n (u64At b 0), .n (u32At b 24), .n (u64At b 8), .n (u64At b 16)]) [] unitBody
+    aWithObj cfg calls0 r 32 fun b =>
+      aSimple cfg fs unique calls0 (mkCall ctx "fallocate" [.n nodeid, .n (u64At b 0), .n (u32At b 24), .n (u64At b 8), .n (u64At b 16)]) [] unitBody
   | _ => ofSync (Srv.handleBody cfg fs ctx calls0 hdrLen op unique nodeid r)
 
 /-- opcodes the async dispatcher routes to a synchronous handler or to the no-reply group -/
@@ -176,31 +191,21 @@ def syncRouted (op : Nat) : Bool :=
   [2, 5, 6, 8, 9, 10, 11, 12, 13, 17, 18, 21, 22, 23, 24, 25, 26, 27, 28, 29, 31, 32, 33, 34, 36, 37, 38,
    39, 40, 41, 42, 44, 45, 46, 48, 49].contains op
 
+def afterRemapA (cfg : Cfg) (fs : Call → Ans) (req : Bytes) (a : Ans) : ARes :=
+  if hdrLenOf req > MAX_BUFFER_SIZE + BUFFER_HEADER_SIZE then
+    if isForget (opOf req) then { calls := [remapCall req], ret := .err .invalidMessage, minor := cfg.minor }
+    else aErrRes cfg (uniqueOf req) [remapCall req] [] (.os ENOMEM)
+  else if asyncOps.contains (opOf req) || syncRouted (opOf req) then
+    handleBodyA cfg fs (ctxAfterRemap req a) [remapCall req] (hdrLenOf req) (opOf req) (uniqueOf req)
+      (nodeidOf req) (req.drop IN_HDR)
+  else aErrRes cfg (uniqueOf req) [remapCall req] [] (.os ENOSYS)
+
 /-- `Server::async_handle_message` -/
 def handle (cfg : Cfg) (fs : Call → Ans) (req : Bytes) : ARes :=
   if req.length < IN_HDR then { ret := .err .decodeMessage, minor := cfg.minor }
   else
-    let h := req.take IN_HDR
-    let r := req.drop IN_HDR
-    let hdrLen := u32At h 0
-    let op := u32At h 4
-    let unique := u64At h 8
-    let nodeid := u64At h 16
-    let ctx0 := ctxOfHeader h
-    let remap : Call := { method := "id_remap", ctx := ctx0, args := [.n nodeid] }
-    match fs remap with
-    | .err _ => { calls := [remap], ret := .err .failedToRemapID, minor := cfg.minor }
-    | a =>
-      let ctx := match a with
-        | .remapSet u g => { ctx0 with uid := u, gid := g }
-        | _ => ctx0
-      if hdrLen > MAX_BUFFER_SIZE + BUFFER_HEADER_SIZE || cfg.cap < OUT_HDR then
-        let (o, rt) := aReplyErr cfg unique (.os ENOMEM) COMMIT_UNBUFFERED
-        { calls := [remap], out := o, ret := rt, minor := cfg.minor }
-      else if asyncOps.contains op || syncRouted op then
-        handleBodyA cfg fs ctx [remap] hdrLen op unique nodeid r
-      else
-        let (o, rt) := aReplyErr cfg unique (.os ENOSYS) COMMIT_UNBUFFERED
-        { calls := [remap], out := o, ret := rt, minor := cfg.minor }
+    match fs (remapCall req) with
+    | .err _ => { calls := [remapCall req], ret := .err .failedToRemapID, minor := cfg.minor }
+    | a => afterRemapA cfg fs req a
 
 end Fbr.SrvAsync
